@@ -46,6 +46,13 @@ func verifC01Pool() []dnsdata.VerifRec {
 		{Kind: '.', Dom: []byte("s.z"), TTL: 314, Target: []byte("ns.s.z"), IP: []byte{192, 0, 2, 54}, Loc: verifL1},
 		{Kind: '.', Dom: []byte("g.c.z"), TTL: 315, Target: []byte("ns.g.c.z"), IP: []byte{192, 0, 2, 55}},
 		{Kind: '&', Dom: []byte("z"), TTL: 316, Target: []byte("ns2.z"), IP: []byte{192, 0, 2, 3}, Loc: verifL1}, // a located NS at the apex next to the untagged SOA
+		// the remaining record types, one each
+		{Kind: '+', Dom: []byte("c.z"), TTL: 317, IP: []byte{0x20, 0x01, 0x0d, 0xb8, 0, 0, 0, 0, 0, 0, 0, 0, 0, 0, 0, 0x17}, Weight: 1},
+		{Kind: 'S', Dom: []byte("v.z"), TTL: 318, Target: []byte("sv.v.z"), IP: []byte{192, 0, 2, 18}, Rtype: 8443, Dist: 7, Weight: 9},
+		{Kind: '^', Dom: []byte("p.z"), TTL: 319, Target: []byte("host.z")},
+		{Kind: '=', Dom: []byte("e.z"), TTL: 320, IP: []byte{192, 0, 2, 33}},
+		{Kind: ':', Dom: []byte("x.z"), TTL: 321, Rtype: 0xff01, Txt: []byte("ab")},
+		{Kind: 'H', Dom: []byte("h.z"), TTL: 322, Target: []byte("t.z"), Dist: 1, Txt: []byte("alpn=h2")},
 	}
 }
 
@@ -86,6 +93,9 @@ func refFlatten(recs []dnsdata.VerifRec) []refRR {
 		if len(ip) == 4 {
 			out = append(out, refRR{owner, wild, dns.TypeA, fmt.Sprintf("A %d %d.%d.%d.%d", ttl, ip[0], ip[1], ip[2], ip[3]), loc})
 		}
+		if len(ip) == 16 {
+			out = append(out, refRR{owner, wild, dns.TypeAAAA, fmt.Sprintf("AAAA %d %x", ttl, ip), loc})
+		}
 	}
 	for _, r := range recs {
 		o := refWire(r.Dom)
@@ -104,6 +114,19 @@ func refFlatten(recs []dnsdata.VerifRec) []refRR {
 			addr(refWire(r.Target), false, r.TTL, r.IP, r.Loc)
 		case '+':
 			addr(o, r.Wild, r.TTL, r.IP, r.Loc)
+		case 'S':
+			out = append(out, refRR{o, false, dns.TypeSRV, fmt.Sprintf("SRV %d %d %d %d %s", r.TTL, r.Dist, r.Weight, r.Rtype, refName(r.Target)), r.Loc})
+			addr(refWire(r.Target), false, r.TTL, r.IP, r.Loc)
+		case '^':
+			out = append(out, refRR{o, false, dns.TypePTR, fmt.Sprintf("PTR %d %s", r.TTL, refName(r.Target)), r.Loc})
+		case '=':
+			addr(o, r.Wild, r.TTL, r.IP, r.Loc)
+			rev := fmt.Sprintf("%d.%d.%d.%d.in-addr.arpa", r.IP[3], r.IP[2], r.IP[1], r.IP[0])
+			out = append(out, refRR{refWire([]byte(rev)), false, dns.TypePTR, fmt.Sprintf("PTR %d %s", r.TTL, refName(r.Dom)), r.Loc})
+		case ':':
+			out = append(out, refRR{o, false, r.Rtype, fmt.Sprintf("TYPE%d %d %x", r.Rtype, r.TTL, r.Txt), r.Loc})
+		case 'H':
+			out = append(out, refRR{o, r.Wild, dns.TypeHTTPS, fmt.Sprintf("HTTPS %d %d %s %s", r.TTL, r.Dist, refName(r.Target), r.Txt), r.Loc})
 		case 'C':
 			out = append(out, refRR{o, r.Wild, dns.TypeCNAME, fmt.Sprintf("CNAME %d %s", r.TTL, refName(r.Target)), r.Loc})
 		case '\'':
@@ -239,6 +262,20 @@ func rrSig(rr dns.RR) string {
 		return fmt.Sprintf("MX %d %d %s", h.Ttl, x.Preference, x.Mx)
 	case *dns.SOA:
 		return fmt.Sprintf("SOA %d", h.Ttl)
+	case *dns.AAAA:
+		return fmt.Sprintf("AAAA %d %x", h.Ttl, []byte(x.AAAA.To16()))
+	case *dns.SRV:
+		return fmt.Sprintf("SRV %d %d %d %d %s", h.Ttl, x.Priority, x.Weight, x.Port, x.Target)
+	case *dns.PTR:
+		return fmt.Sprintf("PTR %d %s", h.Ttl, x.Ptr)
+	case *dns.RFC3597:
+		return fmt.Sprintf("TYPE%d %d %s", h.Rrtype, h.Ttl, x.Rdata)
+	case *dns.HTTPS:
+		ps := ""
+		for _, v := range x.Value {
+			ps += v.Key().String() + "=" + v.String()
+		}
+		return fmt.Sprintf("HTTPS %d %d %s %s", h.Ttl, x.Priority, x.Target, ps)
 	}
 	return fmt.Sprintf("TYPE%d %d", h.Rrtype, h.Ttl)
 }
